@@ -86,6 +86,11 @@ def run(ctx):
              "step, and on continuing pushes the same frame back in the same order and returns to "
              "the loop body; a missing STEP is 1; no frame on top is NEXT WITHOUT FOR")
     rule_k(ctx, cr)
+    ctx.rule("C01.l", "ON..GOTO/GOSUB: the template is count, selector, On, one Jump per target in "
+             "list order; the handler pops selector then count, adds `count` to pc for selector 0 "
+             "or > count (falls through past the list) and `selector - 1` otherwise; a negative "
+             "selector is ILLEGAL FUNCTION CALL")
+    rule_l(ctx, cr)
 
 
 def rule_a(ctx, cr):
@@ -369,7 +374,8 @@ def origin_sites(f, op, pat, depth=0, seen=None):
             c = d[2]
             if re.search(pat, c.name):
                 out.add(c.bb)
-            elif re.search(r"(Try>?::branch|Clone>?::clone|From<.*>>?::from|Into<.*>>?::into|"
+            elif re.search(r"(Try>?::branch|Clone>?::clone|From<.*>>?::(from|try_from)|"
+                           r"TryFrom::try_from|Into<.*>>?::into|"
                            r"Deref>?::deref|IntoIterator>?::into_iter|Iterator>?::next)$", c.name):
                 for a in c.args[:1]:
                     out |= origin_sites(f, a, pat, depth + 1, seen)
@@ -383,6 +389,11 @@ def origin_sites(f, op, pat, depth=0, seen=None):
             elif rv["k"] == "aggregate":
                 for o in rv["ops"]:
                     out |= origin_sites(f, o, pat, depth + 1, seen)
+            elif rv["k"] == "binop":
+                out |= origin_sites(f, rv["l"], pat, depth + 1, seen)
+                out |= origin_sites(f, rv["r"], pat, depth + 1, seen)
+            elif rv["k"] == "unop" and rv.get("o"):
+                out |= origin_sites(f, rv["o"], pat, depth + 1, seen)
     return out
 
 
@@ -472,6 +483,70 @@ def rule_k(ctx, cr):
     one = [st_ for b, i, st_ in sf.aggregates("lang::ast::Expression", "Integer")
            if sf.const_of_operand(st_["rv"]["ops"][1]) == 1]
     ctx.check(len(one) == 1, "C01.k", "for/default-step", sf.span, "a missing STEP is 1")
+
+
+def rule_l(ctx, cr):
+    """ON .. GOTO/GOSUB: template and selector handler agree"""
+    g = cr.need_fn("mach::codegen::Generator::on")
+    ctx.touch(g)
+    lit = [c for c in g.calls_to("mach::link::Link::push")
+           if (g.stored_variant(g.value_of_operand(c.args[1])) or ("", ""))[1] == "Literal"]
+    on = [c for c in g.calls_to("mach::link::Link::push")
+          if (g.stored_variant(g.value_of_operand(c.args[1])) or ("", ""))[1] == "On"]
+    app = g.calls_to("mach::link::Link::append")
+    jmp = g.calls_to("mach::link::Link::push_goto")
+    ok = len(lit) == 1 and len(on) == 1 and len(app) == 1 and len(jmp) == 1
+    if ok:
+        ok = g.dominates(lit[0].bb, app[0].bb) and g.dominates(app[0].bb, on[0].bb) and \
+            g.dominates(on[0].bb, jmp[0].bb)
+        # the literal is the number of targets (the usize argument), the jumps are emitted in a
+        # loop over exactly those targets
+        ok = ok and any("TryFrom<usize>" in n for n in g.back_slice_calls(lit[0].args[1]))
+        ok = ok and any(jmp[0].bb in scc for scc in g.sccs())
+        ok = ok and any(n.endswith("Iterator>::next") or n.endswith("Iterator::next")
+                        for n in g.back_slice_calls(jmp[0].args[2]))
+    ctx.check(ok, "C01.l", "on/template", g.span,
+              "ON emits: count of targets, selector, On, then one Jump per target in list order",
+              "Generator::on no longer emits count, selector, On and one Jump per target in that "
+              "order: the selector handler skips by positions in this table")
+    h = cr.need_fn("mach::runtime::Runtime::on")
+    ctx.touch(h)
+    pops = _seq(h, h.calls_to("mach::stack::Stack<T>::pop"))
+    stores = list(h.field_stores("pc"))
+    okh = len(pops) == 2 and len(stores) == 2
+    if okh:
+        sel, cnt = pops[0].bb, pops[1].bb       # selector is on top, the count below it
+        kinds = {}
+        for b, st, v in stores:
+            rv = st["rv"]
+            # pc += <x>   (through the WithOverflow tuple or directly)
+            vv = h.value_of_operand(rv["op"]) if rv["k"] == "use" else {"k": "rv", "rv": rv}
+            add = vv["rv"] if vv and vv.get("k") == "rv" and vv["rv"]["k"] == "binop" else None
+            if not add or not add["op"].startswith("Add") or not h.describe(add["l"]).endswith(".pc"):
+                okh = False
+                continue
+            src = origin_sites(h, add["r"], r"Stack<T>::pop$")
+            minus1 = "Sub" in h.describe(add["r"]) and "const:1" in h.describe(add["r"])
+            kinds[b] = (src, minus1)
+        vals = sorted(kinds.values(), key=lambda x: x[1])
+        okh = okh and len(vals) == 2 and vals[0] == ({cnt}, False) and vals[1] == ({sel}, True)
+        # the skip-all store is the one under `select == 0 || select > len`
+        if okh:
+            skip_b = [b for b, k in kinds.items() if not k[1]][0]
+            take_b = [b for b, k in kinds.items() if k[1]][0]
+            cs = h.cmp_conds_at(take_b)
+            okh = any(op == "Eq" and not t and h.describe(r) == "const:0" for op, l, r, t in cs) and \
+                any(op == "Gt" and not t for op, l, r, t in cs)
+    ctx.check(okh, "C01.l", "on/selector-arithmetic", h.span,
+              "selector 0 or beyond the list: pc += count (past every Jump); otherwise pc += "
+              "selector - 1 (onto its Jump)",
+              "Runtime::on no longer skips `count` jumps for an out-of-range selector and "
+              "`selector - 1` jumps otherwise: ON branches to the wrong line or falls into the list")
+    codes = {c for _b, c, _s in h.error_codes()}
+    neg = any(op == "Lt" and t and h.describe(r) == "const:0"
+              for b, c, _s in h.error_codes() for op, l, r, t in h.cmp_conds_at(b))
+    ctx.check("IllegalFunctionCall" in codes, "C01.l", "on/negative-selector", h.span,
+              "a negative selector is ILLEGAL FUNCTION CALL")
 
 
 def _seq(f, calls):
